@@ -28,6 +28,31 @@ inline uint32_t verif_dropped(const ace_time::BasicZoneProcessor& p) {
 #endif
 }
 inline uint32_t verif_dropped(const ace_time::ExtendedZoneProcessor&) { return 0; }
+#ifdef VERIF_GEN_NS
+// A freshly generated database compiled under its own namespace (C03/C20).
+#include "zone_policies.h"
+#include "zone_infos.h"
+#include "zone_registry.h"
+struct GenDb {
+#if VERIF_GEN_EXT
+  typedef ace_time::extended::ZoneInfo Info;
+  typedef ace_time::ExtendedZoneProcessor Processor;
+  static const char* tag() { return "extended(generated)"; }
+  static const char* name(const Info* z) { return (const char*)ace_time::ExtendedZone(z).name(); }
+  static uint32_t id(const Info* z) { return ace_time::ExtendedZone(z).zoneId(); }
+#else
+  typedef ace_time::basic::ZoneInfo Info;
+  typedef ace_time::BasicZoneProcessor Processor;
+  static const char* tag() { return "basic(generated)"; }
+  static const char* name(const Info* z) { return (const char*)ace_time::BasicZone(z).name(); }
+  static uint32_t id(const Info* z) { return ace_time::BasicZone(z).zoneId(); }
+#endif
+  static uint16_t size() { return ace_time::VERIF_GEN_NS::kZoneRegistrySize; }
+  static const Info* info(uint16_t i) { return ace_time::VERIF_GEN_NS::kZoneRegistry[i]; }
+  static int startYear() { return ace_time::VERIF_GEN_NS::kZoneContext.startYear; }
+  static int untilYear() { return ace_time::VERIF_GEN_NS::kZoneContext.untilYear; }
+};
+#endif
 template <class Db> const typename Db::Info* find_zone(const char* nm) {
   for (uint16_t i = 0; i < Db::size(); i++) if (strcmp(Db::name(Db::info(i)), nm) == 0) return Db::info(i);
   return nullptr;
